@@ -63,9 +63,30 @@ theorem c29_bijection_unique (h k h' k' : Nat) (hh : h < 6930000) (hk : k < Heig
 theorem c29_supply : SatSpec.minedBefore 6930000 = SUPPLY ∧ LAST = SUPPLY - 1 := by
   rw [SatSpec.minedBefore_eq]; exact ⟨Height.startingSat_last, rfl⟩
 
+/-- Epoch, cycle, period, degree, decimal form and position in the epoch, as ord reports them for
+the `k`-th sat of block `h`, are the functions of `(h, k)` the notations are defined by. -/
+theorem c29_attributes (h k : Nat) (hh : h < 6930000) (hk : k < Height.subsidy h) :
+    Sat.epoch (Height.startingSat h + k) = h / 210000 ∧
+    Sat.cycle (Height.startingSat h + k) = h / 1260000 ∧
+    Sat.periodO (Height.startingSat h + k) = .ok (h / 2016) ∧
+    Degree.ofSatO (Height.startingSat h + k) = .ok ⟨h / 1260000, h % 210000, h % 2016, k⟩ ∧
+    Sat.decimalO (Height.startingSat h + k) = .ok (h, k) ∧
+    Rarity.ofSatO (Height.startingSat h + k) = .ok (Rarity.ofDegree ⟨h / 1260000, h % 210000, h % 2016, k⟩) := by
+  obtain ⟨hlt, hH, hT, hE⟩ := Sat.compose h k hh hk
+  have e1 : Sat.heightO (Height.startingSat h + k) = .ok h := by rw [Sat.heightO_ok _ hlt, hH]
+  have e2 : Sat.thirdO (Height.startingSat h + k) = .ok k := by rw [Sat.thirdO_ok _ hlt, hT]
+  have e3 : Degree.ofSatO (Height.startingSat h + k) = .ok ⟨h / 1260000, h % 210000, h % 2016, k⟩ := by
+    unfold Degree.ofSatO; rw [e1, e2]; rfl
+  refine ⟨hE, ?_, ?_, e3, ?_, ?_⟩
+  · unfold Sat.cycle CYCLE_EPOCHS; rw [hE, Nat.div_div_eq_div_mul]
+  · unfold Sat.periodO; rw [e1]; rfl
+  · unfold Sat.decimalO; rw [e1, e2]
+  · unfold Rarity.ofSatO; rw [e3]
+
 /-! Non-vacuity -/
 example : Height.startingSat 210000 = 1050000000000000 := by decide
 example : Height.subsidy 6929999 = 1 ∧ Height.subsidy 6930000 = 0 := by decide
+example : Height.subsidy 420000 = 1250000000 ∧ (5 : Nat) < Height.subsidy 420000 := by decide
 example : Sat.heightO SUPPLY = .panic "divzero@sat.height" := by decide
 
 end Ord.C29
